@@ -308,6 +308,20 @@ fn run(case: &Case) -> Result<Outcome, Failure> {
             }
         }
     }
+    // a stopped router has released the receivers of its routes: sends on the old routes start to
+    // fail (the router thread lets go of them right after it acknowledged, so "eventually")
+    let t0 = std::time::Instant::now();
+    for (i, (t, _)) in senders.iter().enumerate() {
+        loop {
+            if t.send(Node::U32(0xdead_2)).is_err() {
+                break;
+            }
+            if t0.elapsed() > wd {
+                fail!("stop:routes-still-open", "the router has stopped (every callback is gone) but the receiver of route {} is still open somewhere: sends on it keep succeeding {:?} later", i, t0.elapsed());
+            }
+            std::thread::sleep(Duration::from_micros(200));
+        }
+    }
     let nt = (!case.routes.is_empty() && in_flight) || (case.shutdown_threads as usize + case.adders as usize) >= 2;
     let class = format!(
         "{}{}{}{}",
